@@ -149,6 +149,12 @@ Theorem C05_check_shortcuts : forall (V : Type) (veqb : V -> V -> bool) (pats : 
 Proof. exact @check_shortcuts. Qed.
 Print Assumptions C05_check_shortcuts.
 
+(* ... and the domain test of the check (wf_patset with its conjunctions evaluated left to right, so that two
+   shapes are compared up to their first difference only: a table of a thousand keys is affordable) is wf_patset *)
+Theorem C05_check_shortcuts_wf : forall (V : Type) (pats : list (bytes * V)), wf_patset_sc pats = wf_patset pats.
+Proof. exact @wf_patset_sc_eq. Qed.
+Print Assumptions C05_check_shortcuts_wf.
+
 (* non-vacuity: the table of the design note is in the domain, and its lookups are as expected *)
 Definition ex_table : list (bytes * nat) :=
   [ ([47;97;47;58;105;100], 0);                       (* /a/:id *)
